@@ -177,13 +177,14 @@ theorem counterexample_sign_only_float_bound :
     ∧ verdict (flat "K" ["f"] [("f", .float { sign := .pos })])
       (.inst "K" [("f", .float ⟨1, 10000000⟩)]) = false := by decide
 
-/-- finding `admits:homogeneous-tuple`: `Tuple[Integer]` (any length) is mapped to
-    `items: [integer], additionalItems: false` -/
-theorem counterexample_homogeneous_tuple :
-    wellFormed anyO (flat "K" ["t"] [("t", .tupleOf (.integer {}) false)])
-      (.inst "K" [("t", .tuple [.int 1, .int 2])]) = true
+/-- fixed (579fe8f, was finding `admits:homogeneous-tuple`): `Tuple[Integer]` of any length is now
+    exported as `items: integer`; inside `schema_admits_partial` -/
+theorem fixed_homogeneous_tuple :
+    inSchemaFragment (flat "K" ["t"] [("t", .tupleOf (.integer {}) false)]) = true
+    ∧ inAdmitRegion anyO (flat "K" ["t"] [("t", .tupleOf (.integer {}) false)])
+      (.inst "K" [("t", .tuple [.int 1, .int 2, .int 3])]) = true
     ∧ verdict (flat "K" ["t"] [("t", .tupleOf (.integer {}) false)])
-      (.inst "K" [("t", .tuple [.int 1, .int 2])]) = false := by decide
+      (.inst "K" [("t", .tuple [.int 1, .int 2, .int 3])]) = true := by decide
 
 def wrapperInner : FieldDecl :=
   .struct { name := "Inner", required := ["a"], addl := false, accepts := ["Inner"] } [("a", .integer {})] []
@@ -238,19 +239,31 @@ theorem counterexample_required_empty :
     raises (flat "K" [] [("a", .integer {}), ("b", .boolean)]) = false
     ∧ wfOf (flat "K" [] [("a", .integer {}), ("b", .boolean)]) = false := by decide
 
-/-- finding `ill-formed:patternProperties:type`: the value schema is put directly under
-    `patternProperties` -/
-theorem counterexample_pattern_properties :
-    wfOf (flat "K" ["m"] [("m", .mapOf (.string none none (some "^a")) (.integer {}) {}), ("b", .boolean)])
-      = false := by decide
+/-- fixed (dc01ef6, was finding `ill-formed:patternProperties:type`): a constrained map key is now
+    exported as `patternProperties: {pattern: schema}`; inside both fragments -/
+theorem fixed_pattern_properties :
+    inWfFragment (flat "K" ["m"] [("m", .mapOf (.string none none (some "^a")) (.integer {}) {}), ("b", .boolean)]) = true
+    ∧ inSchemaFragment (flat "K" ["m"] [("m", .mapOf (.string none none (some "^a")) (.integer {}) {}), ("b", .boolean)]) = true
+    ∧ wfOf (flat "K" ["m"] [("m", .mapOf (.string none none (some "^a")) (.integer {}) {}), ("b", .boolean)]) = true
+    ∧ verdict (flat "K" ["m"] [("m", .mapOf (.string none none (some "^a")) (.integer {}) {}), ("b", .boolean)])
+        (.inst "K" [("m", .dict [(.str "ab", .int 1)])]) = true := by decide
 
-/-- finding `ill-formed:exclusiveMaximum:dependencies` -/
-theorem counterexample_exclusive_maximum_alone :
-    wfOf (flat "K" ["a"] [("a", .integer { exclMax := true }), ("b", .boolean)]) = false := by decide
+/-- fixed (1f58d10, was `ill-formed:exclusiveMaximum:dependencies` and
+    `admits:exclusiveMaximum-without-maximum`): `exclusiveMaximum` is emitted only with a declared
+    maximum, so `NonPositiveInt(exclusiveMaximum=True)` holding 0 validates -/
+theorem fixed_exclusive_maximum_alone :
+    inWfFragment (flat "K" ["a"] [("a", .integer { exclMax := true, sign := .nonpos }), ("b", .boolean)]) = true
+    ∧ wfOf (flat "K" ["a"] [("a", .integer { exclMax := true, sign := .nonpos }), ("b", .boolean)]) = true
+    ∧ verdict (flat "K" ["a"] [("a", .integer { exclMax := true, sign := .nonpos }), ("b", .boolean)])
+        (.inst "K" [("a", .int 0)]) = true := by decide
 
-/-- finding `ill-formed:multipleOf:minimum` -/
-theorem counterexample_multiple_of_negative :
-    wfOf (flat "K" ["a"] [("a", .integer { mult := some (-2) }), ("b", .boolean)]) = false := by decide
+/-- fixed (1f58d10, was `ill-formed:multipleOf:minimum`): a negative `multiplesOf` is exported as
+    its absolute value -/
+theorem fixed_multiple_of_negative :
+    inWfFragment (flat "K" ["a"] [("a", .integer { mult := some (-2) }), ("b", .boolean)]) = true
+    ∧ wfOf (flat "K" ["a"] [("a", .integer { mult := some (-2) }), ("b", .boolean)]) = true
+    ∧ verdict (flat "K" ["a"] [("a", .integer { mult := some (-2) }), ("b", .boolean)])
+        (.inst "K" [("a", .int (-4))]) = true := by decide
 
 /-- what the Deserializer says about a document the schema admits -/
 def admittedButRejected (cls : FieldDecl) (doc : PyVal) : Bool :=
